@@ -168,6 +168,22 @@ def settings_object(d: Path):
     return st
 
 
+# kinds also converted with the public helper to_html5_demo(text, **settings), each kind with settings of its own
+DEMO_KW = {"plain": {}, "scheme_plain": {}, "html_img": {}, "footnotes": {}, "anchors": {"myst_heading_anchors": 2},
+           "scheme_cls": {"myst_enable_extensions": ["attrs_inline"], "myst_url_schemes": {"http": None, "wiki": {"url": "https://w/{{path}}", "classes": ["wk"]}}},
+           "subst": {"myst_enable_extensions": ["substitution"], "myst_substitutions": {"sa": "A", "sb": "*b*"}},
+           "frontmatter_ext": {"myst_enable_extensions": ["html_image"]}}
+
+
+def parse_demo(k):
+    import io
+    from myst_parser.parsers.docutils_ import to_html5_demo
+    try:
+        return {"sig": to_html5_demo(kind_text(k), warning_stream=io.StringIO(), **DEMO_KW[k])}
+    except Exception as e:  # noqa: BLE001
+        return {"sig": f"raised {type(e).__name__}: {e}"}
+
+
 SETTINGS_KINDS = ["plain", "footnotes", "footnote_num", "fm_footnotes", "frontmatter_ext", "html_img", "anchors", "subst", "include"]
 
 
@@ -181,6 +197,8 @@ def run_history(job):
     st = settings_object(d)
     for k, o in zip(hist, out):
         o["st"] = parse_settings(st, d, k) if k in SETTINGS_KINDS else None
+    for k, o in zip(hist, out):
+        o["demo"] = parse_demo(k) if k in DEMO_KW else None
     # the same history through one reused parser object (the documents have different paths)
     md = api_parser(d)
     for n, (k, o) in enumerate(zip(hist, out)):
@@ -309,6 +327,9 @@ def run(ctx):
                 diff = "\n".join(list(difflib.unified_diff(fresh[k]["st"]["sig"].splitlines(), got["st"]["sig"].splitlines(), "new settings object", f"settings object used for {h[:n]}", lineterm="", n=0))[:8])
                 ctx.violation(f"history {h} published with one reused docutils settings object: the output of parse {n + 1} ({k}) depends on what was parsed before:\n{diff}", case)
                 break
+            if got.get("demo") and got["demo"]["sig"] != fresh[k]["demo"]["sig"]:
+                ctx.violation(f"history {h} converted with to_html5_demo (each document with its own settings): the output of call {n + 1} ({k}) depends on the calls before", case)
+                break
             if got.get("api") and _api_sig(got["api"]["sig"]) != _api_sig(fresh[k]["api"]["sig"]):
                 import difflib
                 diff = "\n".join(list(difflib.unified_diff(fresh[k]["api"]["sig"].splitlines(), got["api"]["sig"].splitlines(), "new parser object", f"parser object used for {h[:n]}", lineterm="", n=0))[:8])
@@ -324,7 +345,7 @@ def run(ctx):
         if isinstance(o, dict):
             ctx.violation(f"history {h}: {o.get('error')}", {"leg": "V-history", "history": h})
             continue
-        traces.append({"id": t, "hist": h, "abs": [g["abs"] for g in o], "same": [g["sig"] == fresh[k]["sig"] and (not g.get("st") or g["st"]["sig"] == fresh[k]["st"]["sig"]) and (not g.get("api") or _api_sig(g["api"]["sig"]) == _api_sig(fresh[k]["api"]["sig"]))
+        traces.append({"id": t, "hist": h, "abs": [g["abs"] for g in o], "same": [g["sig"] == fresh[k]["sig"] and (not g.get("demo") or g["demo"]["sig"] == fresh[k]["demo"]["sig"]) and (not g.get("st") or g["st"]["sig"] == fresh[k]["st"]["sig"]) and (not g.get("api") or _api_sig(g["api"]["sig"]) == _api_sig(fresh[k]["api"]["sig"]))
                                 for k, g in zip(h, o)]})
     tf = ctx.wd / "s_traces.ndjson"
     tlc.write_ndjson(tf, traces)
